@@ -262,6 +262,10 @@ def run(ctx, n=None, compare=True):
                 ctx.disagreements.append({"line": line, "impl": impl_s, "model": o.strip(), "case": case.to_json(), "cfg": ruleprops.cfg_json(cfg)})
             ctx.sample(f"{line} -> impl: {impl_s} | model: {o.strip()}", cap=4)
     C07_analytics.run_analytics(ctx, compare=compare)  # project details, project loss, effective support
+    # projects numbered 1 … 13 against '01' … '13': the same outcome and the same per-round record (round 7, drawn last)
+    from .. import relabel
+
+    relabel.run(ctx, min(2500, max(200, n // 6)), rules_=("mes",))
 
 
 def search(ctx, disagreements):
@@ -269,6 +273,10 @@ def search(ctx, disagreements):
 
 
 def replay(payload):
+    if payload.get("cfg", {}).get("relabel"):
+        from .. import relabel
+
+        return relabel.replay(payload)
     if payload.get("sig", {}).get("part") == C07_analytics.PART:
         return C07_analytics.replay(payload)
     case = Case.from_json(payload["case"])
